@@ -63,6 +63,8 @@ LaunchDiagnosis(v, k) ==
   ELSE IF status[v] \notin {"pending", "skip"} THEN "launched-twice"
   ELSE IF serial /\ InProgress # {} THEN "serial-overlap"
   ELSE IF \E c \in deps[v] : status[c] \in {"pending", "inprogress"} THEN "dependency-not-finished"
+  ELSE IF k = "run" /\ \E c \in TransDeps(deps, v) : c \in failed THEN "run-after-failed-dependency"
+  ELSE IF k = "errskip" /\ errs = {} THEN "skipped-without-failure"
   ELSE IF k = "run" /\ errs # {} THEN "run-after-failure-or-cancel"
   ELSE IF k = "run" /\ status[v] = "skip" THEN "run-of-skipped"
   ELSE "wrong-kind"
